@@ -80,7 +80,10 @@ func newScope(rootProvider *provider, parent *scope, ctx context.Context, cancel
 	rootProvider.voidReturnScopedDescriptorsMu.RUnlock()
 
 	for _, descriptor := range initializers {
-		if _, err := s.createInstance(descriptor); err != nil {
+		// Through the scoped cache: an initializer that an earlier one took as a (named)
+		// dependency has run for this scope already and must not run again
+		key := instanceKey{Type: descriptor.Type, Key: descriptor.Key, Group: descriptor.Group}
+		if _, err := s.resolve(key, descriptor); err != nil {
 			// Dispose what earlier initializers created and cancel the derived context
 			_ = s.Close()
 
